@@ -56,6 +56,27 @@ def _norm(e):
     return ast.unparse(e)
 
 
+def _ifexp(test, a, b):
+    """`a if test else b`, factoring `f(.., x, ..) if c else f(.., y, ..)` into `f(.., x if c else y, ..)`."""
+    if _norm(a) == _norm(b):
+        return a
+    if isinstance(a, ast.Call) and isinstance(b, ast.Call) and _norm(a.func) == _norm(b.func) and len(a.args) == len(b.args) \
+            and [k.arg for k in a.keywords] == [k.arg for k in b.keywords] and not any(isinstance(x, ast.Starred) for x in a.args + b.args):
+        pa = list(a.args) + [k.value for k in a.keywords]
+        pb = list(b.args) + [k.value for k in b.keywords]
+        diff = [i for i, (x, y) in enumerate(zip(pa, pb)) if _norm(x) != _norm(y)]
+        if len(diff) == 1:
+            i = diff[0]
+            new = ast.IfExp(test=test, body=pa[i], orelse=pb[i])
+            c = copy.deepcopy(a)
+            if i < len(c.args):
+                c.args[i] = new
+            else:
+                c.keywords[i - len(c.args)].value = new
+            return c
+    return ast.IfExp(test=test, body=a, orelse=b)
+
+
 class _Canon(ast.NodeTransformer):
     """N2, N3, N5 on statement lists (applied bottom-up)."""
 
@@ -69,7 +90,7 @@ class _Canon(ast.NodeTransformer):
             # `if c: return a` followed by `return b`
             if isinstance(s, ast.If) and not s.orelse and len(s.body) == 1 and isinstance(s.body[0], ast.Return) and s.body[0].value is not None \
                     and isinstance(nxt, ast.Return) and nxt.value is not None:
-                r = ast.Return(value=ast.IfExp(test=s.test, body=s.body[0].value, orelse=nxt.value))
+                r = ast.Return(value=_ifexp(s.test, s.body[0].value, nxt.value))
                 out.append(_loc(r, s))
                 i += 2
                 continue
@@ -97,10 +118,23 @@ class _Canon(ast.NodeTransformer):
         if len(b) == 1 and len(o) == 1:
             x, y = b[0], o[0]
             if isinstance(x, ast.Assign) and isinstance(y, ast.Assign) and len(x.targets) == 1 and len(y.targets) == 1 \
-                    and _norm(x.targets[0]) == _norm(y.targets[0]) and isinstance(x.targets[0], (ast.Name, ast.Attribute)):
-                return _loc(ast.Assign(targets=[x.targets[0]], value=ast.IfExp(test=node.test, body=x.value, orelse=y.value)), node)
+                    and _norm(x.targets[0]) == _norm(y.targets[0]) and isinstance(x.targets[0], (ast.Name, ast.Attribute, ast.Subscript)):
+                return _loc(ast.Assign(targets=[x.targets[0]], value=_ifexp(node.test, x.value, y.value)), node)
             if isinstance(x, ast.Return) and isinstance(y, ast.Return) and x.value is not None and y.value is not None:
-                return _loc(ast.Return(value=ast.IfExp(test=node.test, body=x.value, orelse=y.value)), node)
+                return _loc(ast.Return(value=_ifexp(node.test, x.value, y.value)), node)
+            if isinstance(x, ast.Expr) and isinstance(y, ast.Expr):
+                v = _ifexp(node.test, x.value, y.value)
+                if not isinstance(v, ast.IfExp):
+                    return _loc(ast.Expr(value=v), node)
+        return node
+
+    def visit_With(self, node):
+        self.generic_visit(node)
+        # `with a: with b: body`  ->  `with a, b: body`
+        while len(node.body) == 1 and isinstance(node.body[0], ast.With):
+            inner = node.body[0]
+            node.items = node.items + inner.items
+            node.body = inner.body
         return node
 
     def visit_Expr(self, node):
@@ -312,7 +346,7 @@ class Inliner:
     def _body_of(self, callee, call, recv, kind):
         if callee.name in self.stack or len(self.stack) >= 3:
             return None
-        if any(isinstance(x, (ast.Yield, ast.YieldFrom, ast.Global, ast.Nonlocal)) for s in callee.body for x in ast.walk(s)) and kind != "closure":
+        if any(isinstance(x, (ast.Yield, ast.YieldFrom, ast.Nonlocal)) for s in callee.body for x in ast.walk(s)) and kind != "closure":
             return None
         if any(isinstance(x, (ast.Yield, ast.YieldFrom)) for s in callee.body for x in ast.walk(s)):
             return None
@@ -399,7 +433,13 @@ class Inliner:
             if not rets or not _tail_returns_only(body):
                 return None
             tgt = s.targets[0]
-            _replace_tail_returns(body, lambda r: [_loc(ast.Assign(targets=[copy.deepcopy(tgt)], value=r.value if r.value is not None else ast.Constant(value=None)), r)])
+
+            def mk(r):
+                v = r.value if r.value is not None else ast.Constant(value=None)
+                if ast.unparse(v) == ast.unparse(tgt):
+                    return [_loc(ast.Pass(), r)]      # `x = x`
+                return [_loc(ast.Assign(targets=[copy.deepcopy(tgt)], value=v), r)]
+            _replace_tail_returns(body, mk)
         self.inlined.add(callee.name)
         return body or [_loc(ast.Pass(), s)]
 
@@ -418,6 +458,11 @@ class Inliner:
                     return n
                 callee, recv, kind = c
                 real = [x for x in callee.body if not (isinstance(x, ast.Expr) and isinstance(x.value, ast.Constant))]
+                if len(real) > 1 and isinstance(real[-1], ast.Return) and real[-1].value is not None and all(
+                        isinstance(x, (ast.Assign, ast.AnnAssign)) and isinstance(x.targets[0] if isinstance(x, ast.Assign) else x.target, ast.Name) for x in real[:-1]):
+                    from .sem import expand as _expand, is_pure
+                    if all(is_pure(x.value) for x in real[:-1] if getattr(x, "value", None) is not None):
+                        real = [ast.Return(value=_expand(callee, real[-1].value))]
                 if len(real) != 1 or not isinstance(real[0], ast.Return) or real[0].value is None:
                     return n
                 b = self._bind(callee, n, recv, kind)
